@@ -179,7 +179,14 @@ def min_len(f):
     return (end + 7) // 8
 
 
+BY_FRAME_NAME = {"deleteFrame", "renameFrame", "setFrameFd", "unsetFrameFd", "addFrameReceiver", "compressFrame", "frames"}
+
+
 def oracle_one(st, opt, arg, aux=None):
+    if opt in BY_FRAME_NAME:
+        names = [f["name"] for f in st["frames"].values()]
+        if len(set(names)) != len(names):
+            raise Silent("frame names are not unique: 'the frame called X' is not defined")
     if opt == "deleteEcu":
         for n in arg.split(","):
             if n == "":
@@ -445,11 +452,12 @@ def oracle_select(st, opt, arg, aux):
     return tgt
 
 
-def oracle(st0, opts, aux=None):
-    """opts: list of (option, argument); composed in the pipeline order"""
+def oracle(st0, opts, aux=None, reverse=False):
+    """opts: list of (option, argument); composed in the pipeline order (reverse: in the opposite order - used only to measure
+    how many generated pairs would give another result if the stages ran the other way round)"""
     st = copy.deepcopy(st0)
     st["_source"] = copy.deepcopy(st0)
-    for opt, arg in sorted(opts, key=lambda oa: KIND[oa[0]]):
+    for opt, arg in sorted(opts, key=lambda oa: KIND[oa[0]], reverse=reverse):
         if opt not in SWITCHES and arg == "" and opt in ("ecus", "frames", "signals", "deleteSignalAttributes",
                                                           "deleteFrameAttributes", "recalcDLC"):
             continue                                    # an empty argument counts as "not given"
@@ -777,39 +785,46 @@ def single_cases(rng, st, other_path=None):
 
 
 def pair_args(rng, st, other_path, thorough):
-    """one representative argument per option of the reduced set"""
+    """one argument per option of the reduced set, chosen so that the stages do NOT commute wherever the options allow it
+    (a later stage addresses what an earlier one creates: the renamed frame / ECU / signal is deleted, the incremented
+    identifier is changed, the cut threshold lies below the skip threshold, the selection uses the names before renaming)"""
     F = [f["name"] for f in frames_in_order(st)]
     E = list(st["ecus"])
-    S = [n for f in frames_in_order(st) for n in f["signal_order"]]
+    S = []
+    for f in frames_in_order(st):
+        for n in f["signal_order"]:
+            if n not in S:
+                S.append(n)
     ids = [(f["id"], f["ext"]) for f in frames_in_order(st)]
     sizes = sorted({f["size"] for f in st["frames"].values()})
-    free_std = [i for i in range(1, 0x7FF) if all(j != i for j, _ in ids)]
+    free_std = [i for i in range(1, 0x7FF) if all(abs(j - i) > 1 for j, _ in ids)]
     mid = sizes[len(sizes) // 2]
     fa = sorted({a for f in st["frames"].values() for a in f["attributes"] if a not in DERIVED_ATTRS})
+    na, nb = rng.sample(free_std, 2)
     d = {
         "ecus": E[0] + ":rx," + E[-1],
         "frames": ",".join(F[:max(1, len(F) - 1)]),
         "renameEcu": E[0] + ":ERenamed",
-        "deleteEcu": E[-1],
+        "deleteEcu": "ERenamed," + E[-1],
         "renameFrame": F[0] + ":FRenamed",
-        "deleteFrame": F[-1],
+        "deleteFrame": "FRenamed," + F[-1],
         "frameIdIncrement": "1",
-        "changeFrameId": "%d:%d" % (ids[0][0], rng.choice(free_std)),
-        "setFrameFd": F[0],
+        "changeFrameId": "%d:%d,%d:%d" % (ids[0][0] + 1, na, ids[-1][0], nb),
+        "setFrameFd": F[0] + "," + F[-1],
         "skipLongDlc": str(mid),
         "cutLongFrames": str(max(1, mid - 1)),
         "renameSignal": S[0] + ":SRenamed",
-        "deleteSignal": S[-1],
+        "deleteSignal": "SRenamed," + S[-1],
         "deleteZeroSignals": "",
         "deleteObsoleteEcus": "",
         "recalcDLC": "force",
     }
     if thorough:
         d.update({
-            "unsetFrameFd": ",".join(F),
-            "addFrameReceiver": F[0] + ":ENewRcv",
+            "unsetFrameFd": ",".join(F[:-1]),
+            "addFrameReceiver": F[0] + ":ENewRcv,FRenamed:ENewRcv2",
             "deleteSignalAttributes": "SigFloatAttr",
-            "deleteFrameAttributes": fa[0] if fa else "FrHexAttr",
+            "deleteFrameAttributes": (fa[0] if fa else "FrHexAttr") + ",GenMsgCycleTime",
             "deleteObsoleteDefines": "",
             "signals": S[0],
         })
@@ -818,8 +833,8 @@ def pair_args(rng, st, other_path, thorough):
     return d
 
 
-QUICK_PAIR_SET = ["ecus", "frames", "renameEcu", "deleteEcu", "renameFrame", "deleteFrame", "changeFrameId", "skipLongDlc",
-                  "cutLongFrames", "deleteSignal", "deleteObsoleteEcus", "recalcDLC"]
+QUICK_PAIR_SET = ["ecus", "frames", "renameEcu", "deleteEcu", "renameFrame", "deleteFrame", "frameIdIncrement", "changeFrameId",
+                  "skipLongDlc", "cutLongFrames", "deleteSignal", "deleteObsoleteEcus"]
 
 
 # ------------------------------------------------------------------------------------------------------------------
@@ -1038,7 +1053,7 @@ def _run(chk, rng, thorough, ok, C, R, tmp):
     chk.case("help-renameFrame", True)
 
     # ---- input files ----
-    n_inputs = 4 if not thorough else 24
+    n_inputs = 4 if not thorough else 60
     inputs = []
     for idx in range(n_inputs):
         db0 = gen_input(rng, C, idx, big=thorough and idx % 3 == 0)
@@ -1047,6 +1062,8 @@ def _run(chk, rng, thorough, ok, C, R, tmp):
         st = describe(R.load(p1))
         # the other file for --merge: one frame collides with the input by identifier (the input's frame must win)
         other = gen_input(rng, C, idx + 1000)
+        for f in other.frames:
+            f.name = "O" + f.name[1:]          # frame names stay unique in the merged matrix; ECU and signal names may coincide
         f0 = R.load(p1).frames[0]
         other.frames[0].arbitration_id = C.ArbitrationId(f0.arbitration_id.id, f0.arbitration_id.extended)
         other._frames_dict_id_extend = {}
@@ -1164,7 +1181,7 @@ def _run(chk, rng, thorough, ok, C, R, tmp):
             tie_direct(in_db, opts, res["fn"], dict(input=inp["idx"], options=opts))
 
     # ---- ordered pairs ----
-    n_pair_inputs = 2 if not thorough else 8
+    n_pair_inputs = 2 if not thorough else 20
     for inp in inputs[:n_pair_inputs]:
         in_db = R.load(inp["path"])
         args = pair_args(rng, inp["st"], inp["other_path"], thorough)
@@ -1174,6 +1191,18 @@ def _run(chk, rng, thorough, ok, C, R, tmp):
             opts = [(a, args[a]), (b, args[b])]
             chk.count("pair")
             fail, nontrivial, res, exp = judge(inp, opts, 0)
+            if exp is not None and not exp.get("_selected") and not exp.get("_merged"):
+                # does the order of the two stages matter for these arguments?
+                try:
+                    other_way = oracle(inp["st"], opts, [inp["other_st"]], reverse=True)
+                    sensitive = bool(matgen.diff(view(finalize({k: v for k, v in exp.items() if not k.startswith("_")})),
+                                                 view(finalize({k: v for k, v in other_way.items() if not k.startswith("_")}))))
+                except Silent:
+                    sensitive = False
+                chk.count("pair-order-sensitive" if sensitive else "pair-commuting")
+                nontrivial = nontrivial and sensitive
+            elif exp is not None:
+                chk.count("pair-with-selection")
             chk.case(("pair", inp["idx"], a, b), nontrivial)
             if sampled < 6 and nontrivial:
                 sampled += 1
@@ -1230,7 +1259,7 @@ def _run(chk, rng, thorough, ok, C, R, tmp):
                 add_model(1810, [[KIND[opt]], []], [[1]], dict(option=opt, argument=""), True)
 
     # ---- small in-memory matrices (wrapped loadp): volume tie of the directly modelled options, PDU containers ----
-    n_tiny = 400 if not thorough else 4000
+    n_tiny = 400 if not thorough else 12000
     for i in range(n_tiny):
         pdu = i % 4 == 3
         db = gen_tiny(rng, C, pdu)
@@ -1267,7 +1296,7 @@ def _run(chk, rng, thorough, ok, C, R, tmp):
         parse_info.append(inf)
         if len(small) < 2000:
             small.append((cmd, groups, exp))
-    n_parse = 1500 if not thorough else 15000
+    n_parse = 1500 if not thorough else 30000
     for i in range(n_parse):
         s = "".join(rng.choice("ab,:rtx") for _ in range(rng.randrange(0, 9)))
         sep = rng.choice(",:")
